@@ -1029,7 +1029,20 @@ def nonstrict_paths(ctx, fi, keep, on_return, max_paths=8):
                 return
             if isinstance(s, ast.Return):
                 rep.require(s.value is not None, 'classify: bare return on the non-strict path')
-                on_return(s, sub(S, s.value), S, facts)
+
+                def deliver(val, facts_):
+                    # return A if c else B  is  if c: return A else: return B  (N10 writes the former)
+                    if isinstance(val, ast.IfExp) and (keep(val.body) or keep(val.orelse) or isinstance(val.body, ast.IfExp) or isinstance(val.orelse, ast.IfExp)):
+                        tt = sub(S, val.test)
+                        vv = tv(tt)
+                        if vv is None:
+                            deliver(val.body, facts_ + [(tt, True)])
+                            deliver(val.orelse, facts_ + [(tt, False)])
+                        else:
+                            deliver(val.body if vv else val.orelse, facts_)
+                        return
+                    on_return(s, val, S, facts_)
+                deliver(sub(S, s.value), facts)
                 return
             if isinstance(s, (ast.Assign, ast.AnnAssign)):
                 targets = s.targets if isinstance(s, ast.Assign) else [s.target]
